@@ -143,6 +143,23 @@ where T: EucRing + Bridge, for<'x> &'x T: EucRingOps<T>, T::O: OEuc {
     let pinv = res.pinv().map(mat_to_o);
     let q = res.q().map(mat_to_o);
     let qinv = res.qinv().map(mat_to_o);
+    // bulk accessors: trans() and destruct() hand out the same matrices in the order [p, pinv, q, qinv]
+    {
+        let t: Vec<Option<OMat<T::O>>> = res.trans().iter().map(|x| x.map(mat_to_o)).collect();
+        let single = vec![p.clone(), pinv.clone(), q.clone(), qinv.clone()];
+        if t != single { fail!("trans-accessor", "trans() differs from [p(), pinv(), q(), qinv()]".into()) }
+        // destruct() consumes the result: a second (in-place) run on the same input, one case in four
+        if rng.chance(1, 4) {
+            if let Ok(r2) = guarded(|| yui_matrix::dense::snf::snf_in_place(a.clone(), flags)) {
+                let same_single = vec![r2.p().map(mat_to_o), r2.pinv().map(mat_to_o), r2.q().map(mat_to_o), r2.qinv().map(mat_to_o)];
+                let d2 = mat_to_o(r2.result());
+                let (dres, dt) = r2.destruct();
+                let dt: Vec<Option<OMat<T::O>>> = dt.iter().map(|x| x.as_ref().map(mat_to_o)).collect();
+                if dt != same_single || mat_to_o(&dres) != d2 { fail!("destruct-accessor", "destruct() differs from result() and [p(), pinv(), q(), qinv()] of the same run".into()) }
+                if same_single != single || d2 != mat_to_o(res.result()) { fail!("snf-in-place-differs", "snf_in_place on a copy returns a different result than snf on the same input".into()) }
+            }
+        }
+    }
     for (name, x, flag, sz) in [("p", &p, flags[0], m), ("pinv", &pinv, flags[1], m), ("q", &q, flags[2], n), ("qinv", &qinv, flags[3], n)] {
         if x.is_some() != flag { fail!("flags", format!("{name} present = {} but flag = {}", x.is_some(), flag)) }
         if let Some(x) = x { if (x.m, x.n) != (sz, sz) { fail!("shape", format!("{name} is {}x{}", x.m, x.n)) } }
